@@ -4,7 +4,9 @@ use crate::common::*;
 use anyhow::anyhow;
 use serde_json::json;
 use std::collections::{HashMap, HashSet};
-use versatiles_core::types::LimitedCache;
+use versatiles_container::VersaTilesReader;
+use versatiles_core::io::DataReaderBlob;
+use versatiles_core::types::{LimitedCache, TileCoord3, TilesReaderTrait};
 
 #[derive(Clone, Debug, PartialEq)]
 pub enum Op {
@@ -254,10 +256,147 @@ fn gen_history(rng: &mut Rng, cap: u64, len: usize, functional: bool) -> Vec<Op>
 	ops
 }
 
+
+// ---------------------------------------------------------------------------------------------
+// Reader-level transparency: the cache in front of the versatiles block tile indexes must not
+// change what a lookup returns - a sequence of lookups on ONE opened reader (cache hits, also
+// after failed loads) returns what each lookup returns on a freshly opened reader.
+
+/// copy of a valid versatiles file in which the tile index of block `bi` has `drop` entries fewer
+/// than the block's coverage (the block is re-appended at the end of the file, block index and
+/// header are rewritten) - a container whose index loader must FAIL, every time
+fn damage_tile_index(bytes: &[u8], bi: usize, drop: usize) -> Option<Vec<u8>> {
+	use crate::indep_formats::{brotli_c, brotli_d, parse_versatiles};
+	let parsed = parse_versatiles(bytes).ok()?;
+	let rec = parsed.records.get(bi)?;
+	let (off, bl, il) = (rec.offset as usize, rec.blobs_len as usize, rec.index_len as usize);
+	let index = brotli_d(&bytes[off + bl..off + bl + il]).ok()?;
+	if index.len() < 12 * (drop + 1) {
+		return None;
+	}
+	let new_index = brotli_c(&index[..index.len() - 12 * drop]);
+	let mut out = bytes.to_vec();
+	let new_off = out.len();
+	out.extend_from_slice(&bytes[off..off + bl]);
+	out.extend_from_slice(&new_index);
+	let mut raw_bi = vec![];
+	for (i, r) in parsed.records.iter().enumerate() {
+		let mut raw = r.raw.clone();
+		if i == bi {
+			raw[13..21].copy_from_slice(&(new_off as u64).to_be_bytes());
+			raw[29..33].copy_from_slice(&(new_index.len() as u32).to_be_bytes());
+		}
+		raw_bi.extend_from_slice(&raw);
+	}
+	let cbi = brotli_c(&raw_bi);
+	let bi_off = out.len();
+	out.extend_from_slice(&cbi);
+	out[50..58].copy_from_slice(&(bi_off as u64).to_be_bytes());
+	out[58..66].copy_from_slice(&(cbi.len() as u64).to_be_bytes());
+	Some(out)
+}
+
+fn lookup_verdict(r: Result<anyhow::Result<Option<versatiles_core::types::Blob>>, String>) -> String {
+	match r {
+		Ok(Ok(Some(b))) => format!("some:{}", hex(b.as_slice())),
+		Ok(Ok(None)) => "none".into(),
+		Ok(Err(_)) => "err".into(),
+		Err(_) => "panic".into(),
+	}
+}
+
+fn reader_transparency(args: &Args, out: &mut Out, rng: &mut Rng) {
+	use crate::indep_formats::{encode_versatiles, Comp, Fmt, TileMap, VtChoices};
+	let rt = tokio::runtime::Builder::new_multi_thread().worker_threads(2).enable_all().build().unwrap();
+	let n = args.n(40, 400);
+	for case in 0..n {
+		// a small world: one or two levels, tiles on both sides of a block border at z >= 9
+		let mut tiles: TileMap = TileMap::new();
+		let z = *rng.pick(&[2u8, 3, 9, 10]);
+		let (x0, y0) = if z >= 9 { (254u32, 254u32) } else { (0, 0) };
+		let side = rng.range(2, 4) as u32;
+		for y in y0..y0 + side {
+			for x in x0..x0 + side {
+				if rng.chance(5, 6) {
+					let len = rng.range(1, 40) as usize;
+					tiles.insert((z, x, y), rng.bytes(len));
+				}
+			}
+		}
+		if tiles.is_empty() {
+			continue;
+		}
+		let mut ch = VtChoices::plain(Fmt::Bin, *rng.pick(&[Comp::None, Comp::Gzip]));
+		ch.range_mode = rng.below(3) as u8;
+		let valid = encode_versatiles(&tiles, &ch, rng).bytes;
+		let damaged = rng.chance(2, 3);
+		let bytes = if damaged {
+			let nblocks = crate::indep_formats::parse_versatiles(&valid).map(|p| p.records.len()).unwrap_or(0);
+			match damage_tile_index(&valid, rng.below(nblocks.max(1) as u64) as usize, rng.range(1, 2) as usize) {
+				Some(b) => b,
+				None => valid.clone(),
+			}
+		} else {
+			valid.clone()
+		};
+		// probe sequence: every stored coordinate and some absent neighbours, several times, shuffled
+		let mut probes: Vec<(u8, u32, u32)> = tiles.keys().cloned().collect();
+		probes.push((z, x0 + side, y0));
+		probes.push((z, x0, y0 + side));
+		let mut seq = vec![];
+		for _ in 0..3 {
+			for p in &probes {
+				if rng.chance(3, 4) {
+					seq.push(*p);
+				}
+			}
+		}
+		if let Some(first) = seq.first().cloned() {
+			seq.insert(1, first);
+			seq.insert(2, first);
+		}
+		let open = || rt.block_on(VersaTilesReader::open_reader(Box::new(DataReaderBlob::from(bytes.clone()))));
+		// fresh reader per lookup = what each call returns when it runs alone with an empty cache
+		let fresh: Vec<String> = seq
+			.iter()
+			.map(|c| match catch(|| open()) {
+				Ok(Ok(r)) => lookup_verdict(catch(|| rt.block_on(r.get_tile_data(&TileCoord3::new(c.1, c.2, c.0).unwrap())))),
+				Ok(Err(_)) => "open-err".into(),
+				Err(_) => "open-panic".into(),
+			})
+			.collect();
+		// one reader for the whole sequence
+		let shared: Vec<String> = match catch(|| open()) {
+			Ok(Ok(r)) => seq.iter().map(|c| lookup_verdict(catch(|| rt.block_on(r.get_tile_data(&TileCoord3::new(c.1, c.2, c.0).unwrap()))))).collect(),
+			Ok(Err(_)) => vec!["open-err".into(); seq.len()],
+			Err(_) => vec!["open-panic".into(); seq.len()],
+		};
+		let errs = fresh.iter().filter(|v| *v == "err").count();
+		let key = format!("C20r {case} z{z} damaged={damaged} {}", hex(&bytes[..bytes.len().min(64)]));
+		out.eval(&key, damaged && errs > 0);
+		out.count(if damaged { "reader_seq_damaged_container" } else { "reader_seq_valid_container" });
+		out.count_n("reader_seq_lookups", seq.len() as u64);
+		out.count_n("reader_seq_failed_loads", errs as u64);
+		let bad = (0..seq.len()).find(|i| shared[*i] != fresh[*i]);
+		match bad {
+			None => out.oracle(true, "", json!(null), json!(null)),
+			Some(i) => out.oracle(
+				false,
+				&format!("C20 reader-transparency: lookup #{i} of {:?} on a reader that served {} earlier lookups returns {} but a freshly opened reader returns {}", seq[i], i, trunc(&shared[i], 40), trunc(&fresh[i], 40)),
+				json!({"kind": "reader_transparency", "damaged": damaged, "after_failed_load": fresh[..i].iter().any(|v| v == "err")}),
+				json!({"container_hex": hex(&bytes), "sequence": seq, "shared": shared.iter().map(|s| trunc(s, 24)).collect::<Vec<_>>(), "fresh": fresh.iter().map(|s| trunc(s, 24)).collect::<Vec<_>>()}),
+			),
+		}
+		if case < 2 {
+			out.sample(json!({"reader_sequence": seq, "damaged": damaged, "fresh_verdicts": fresh.iter().map(|s| trunc(s, 16)).collect::<Vec<_>>()}));
+		}
+	}
+}
+
 pub fn run(args: &Args) {
 	quiet_panics();
 	let mut out = Out::new(&args.out);
-	out.rule = "histories of add/get/get_or_set(ok|fail) on LimitedCache<u64,u64>; corpus first, then seeded random histories (≤10 keys, cap 1..64, with recency probes), thorough: all histories of length ≤5 over 2 keys/2 values for cap 1..3; non-trivial = more insert-capable ops than the capacity (passes through an eviction); distinct by case text".into();
+	out.rule = "histories of add/get/get_or_set(ok|fail) on LimitedCache<u64,u64>; corpus first, then seeded random histories (≤10 keys, cap 1..64, with recency probes), thorough: all histories of length ≤5 over a 9-op alphabet for cap 1..3; plus reader-level transparency: lookup sequences (repeats, neighbours, after failed index loads) on ONE opened VersaTilesReader over valid and index-damaged containers vs the same lookups on freshly opened readers (oracle only); non-trivial = more insert-capable ops than the capacity (passes through an eviction); distinct by case text".into();
 	let mut seen = HashMap::new();
 	if let Some(p) = &args.replay {
 		for line in std::fs::read_to_string(p).unwrap().lines() {
@@ -315,6 +454,7 @@ pub fn run(args: &Args) {
 		}
 		out.notes.push("exhaustive part: all 9^1..9^5 histories over a 9-op alphabet for cap 1,2,3".into());
 	}
+	reader_transparency(args, &mut out, &mut rng);
 	out.extra.insert("histories_with_eviction_by_cap".into(), json!(seen.iter().map(|(k, v)| (k.to_string(), *v)).collect::<HashMap<_, _>>()));
 	out.finish();
 }
